@@ -157,7 +157,23 @@ def handle (j : Json) : R Json := do
         prev := d
         pure (specOn L circ d)
       | .error _ => pure (jObj [("half", toJson (circ && Components.halfRecordComponent L (areasAfter prev ops)))])
-    out := out ++ [jObj [("model", model), ("spec", spec), ("expect_components", toJson fresh)]]
+    -- `create_regions(candidate_clusters=…, subregions=…)`: the spec on the GIVEN areas only
+    let given ← match g.getObjVal? "given" with
+      | .ok gj => do
+        let areas ← listOf (fun a => do return ((← asNat (← idx a 0)), (← locOfJson (← idx a 1)))) gj
+        pure (some areas)
+      | .error _ => pure none
+    let givenSpec := match given, impl.getObjVal? "protos" with
+      | some areas, .ok _ =>
+        let regions := prev.regions.map fun r => (r.2.1, r.2.2.1 ++ r.2.2.2)
+        let v := Components.judgeRegions L circ areas regions
+        jObj [("partition", toJson v.partition), ("exact", toJson v.exact), ("wf", toJson v.wf),
+              ("members_given", toJson (regions.all fun r => r.2.all fun m => areas.any (·.1 == m))),
+              ("classes", toJson (Components.classIds areas)),
+              ("half", toJson (circ && Components.halfRecordComponent L areas)),
+              ("clash", toJson (circ && Components.fullRecordClash L (areas.map (·.2))))]
+      | _, _ => Json.null
+    out := out ++ [jObj [("model", model), ("spec", spec), ("given", givenSpec), ("expect_components", toJson fresh)]]
   return jObj [("steps", jArr out), ("scope", toJson scope)]
 
 end ASV.Drv.C06
